@@ -83,6 +83,21 @@ def case_strategy(tier):
         listeners = [{"script": draw(_listener_script(prog["clock"]))} for _ in range(nl)]
         order = draw(st.lists(st.tuples(st.integers(0, nl - 1), st.integers(0, 3)).map(list), min_size=4, max_size=14))
         seeds = draw(st.lists(st.one_of(st.integers(0, 20), st.integers()), min_size=1, max_size=3))
+        if draw(st.integers(0, 2)) > 0:
+            # steer: a self-rescheduling driver handler that fires bus type t, and two listeners subscribed to t
+            # (first in the subscription order) whose scripts draw from a shared stream and schedule events
+            t = draw(st.integers(0, 3))
+            ck = prog["clock"]
+            step = {"float": fx(0.5), "int": 1, "duration": [fx(20.0), "s"]}[ck]
+            scale = {"float": fx(2.0), "int": 3, "duration": [fx(1.0), "min"]}[ck]
+            driver = len(prog["nodes"])
+            prog["nodes"].append([["fire", t], ["rel", step, driver, 5]])
+            prog["root"] = [["rel", step, driver, 5]] + prog["root"][:4]
+            sink = draw(st.integers(0, max(0, driver - 1)))
+            for li in (0, 1):
+                listeners[li]["script"] = [["rel_rand", draw(st.integers(0, 5)), scale, sink, draw(PRIO)]] + \
+                    listeners[li]["script"][:2]
+            order = [[0, t], [1, t]] + order
         return {"prog": prog, "bus": {"listeners": listeners, "order": order}, "seeds": seeds,
                 "k": draw(st.integers(1, 25)), "frac": draw(st.integers(1, 9)), "prior": draw(st.sampled_from([0, 50, 300]))}
     return case()
